@@ -61,6 +61,12 @@ func c18Rules() *RuleFile {
 		{ID: "942100", Ops: []string{"@rx", "@rx", "!@rx", "@rx"}, Regex: []string{"stale0", "stale1", "stale2", "stale3"}},
 		{ID: "942110", Ops: []string{"@rx"}, Regex: []string{"stale4"}},
 	}
+	long := RuleSpec{ID: "942120"}
+	for k := 0; k <= 255; k++ {
+		long.Ops = append(long.Ops, "@rx")
+		long.Regex = append(long.Regex, fmt.Sprintf("stale-l%d", k))
+	}
+	rf.Rules = append(rf.Rules, long)
 	renderRuleFile(rf, RulesOpts{}, "# rules\n\n", nil)
 	return rf
 }
@@ -160,7 +166,8 @@ func genC18(t *rapid.T, tier string) (*World, any) {
 		p.Cmd = pick(t, []string{"update", "compare"}, "cmd")
 		p.Cwd, p.Root = "crs", "crs"
 		pool := []string{"942100.ra", "942100-chain1.ra", "942100-chain2.ra", "942100-chain3.ra", "942100-chain0.ra", "942110.ra",
-			"942100-chain256.ra", "942100-chain300.ra", "942100-chain18446744073709551616.ra", "9421000.ra", "94210.ra", "942100.ra.ra", "942100-chain1x.ra", "x942100.ra", "942100.txt", "942100-chain.ra"}
+			"942100-chain256.ra", "942100-chain300.ra", "942100-chain18446744073709551616.ra", "9421000.ra", "94210.ra", "942100.ra.ra", "942100-chain1x.ra", "x942100.ra", "942100.txt", "942100-chain.ra",
+			"942120.ra", "942120-chain1.ra", "942120-chain127.ra", "942120-chain128.ra", "942120-chain130.ra", "942120-chain255.ra", "942120-chain256.ra"}
 		n := drawInt(t, 1, 5, "n")
 		seen := map[string]bool{}
 		for i := 0; i < n; i++ {
@@ -371,6 +378,9 @@ func evalC18(sc *Scenario, sim *Sim) ([]Violation, bool, string) {
 			if id == "942110" {
 				ri = 1
 			}
+			if id == "942120" {
+				ri = 2
+			}
 			if k >= len(rf.Rules[ri].Ops) {
 				wantFail = true
 				break
@@ -432,7 +442,7 @@ func init() {
 		ID: "C18", Level: "exploration",
 		Rule: "scenario in one of four modes. arg: argument strings built from 8 id shapes x 16 chain numbers (0, 1, 2, 3, 7, 255, 256, 300, 2^64, 10^20, leading zeros, signs, fractions, letters, empty) x 18 surface shapes (.ra, .ra.ra, trailing / leading junk, upper case, blanks, doubled -chain, ./) for generate / update / compare / format, with the literally named file present; oracle: accepted iff inside the statement's grammar with K <= 255, the file read (I/O trace) is regex-assembly/NNNNNN[-chainK].ra, update rewrites exactly the K-th chained rule's operand (disk vs structure), rejected implies exit != 0 and no write. stdin: generate ARG vs generate - with the same bytes (LF / CRLF / no final newline). root: 27 combinations of cwd and -d (also trailing slashes, unclean paths, -d naming a file) (absolute or relative; at, below, beside a root; nested roots; no root at all; no -d) - the root observed through the trace must be the nearest ancestor-or-self of -d holding regex-assembly, or exactly cwd without -d; nothing outside it is read or written. all: --all over 1-5 file names drawn from in-grammar, K > 255 and near-miss names - in-grammar names address exactly their lines, near misses are skipped, K > 255 fails. Each run under a seeded schedule. Distinct = distinct parameter sets.",
 		Gen:  genC18, Eval: evalC18,
-		QuickChecks: 3000, ThoroughChecks: 40000, Timeout: 20 * time.Second,
+		QuickChecks: 1500, ThoroughChecks: 30000, Timeout: 20 * time.Second,
 		Assumptions: []string{
 			"leading zeros in K are accepted by the grammar; the file name is then the argument as written",
 			"for format an argument outside the rule grammar is an include name; the corresponding include file does not exist in these worlds, so it must fail",
